@@ -6,6 +6,7 @@ require (
 	github.com/anishathalye/porcupine v1.3.0
 	github.com/cilium/hive v1.0.4
 	github.com/cilium/statedb v0.0.0
+	go.yaml.in/yaml/v3 v3.0.4
 )
 
 require (
@@ -25,7 +26,6 @@ require (
 	github.com/spf13/viper v1.18.2 // indirect
 	github.com/subosito/gotenv v1.6.0 // indirect
 	go.uber.org/dig v1.17.1 // indirect
-	go.yaml.in/yaml/v3 v3.0.4 // indirect
 	golang.org/x/sys v0.17.0 // indirect
 	golang.org/x/term v0.16.0 // indirect
 	golang.org/x/text v0.14.0 // indirect
